@@ -339,12 +339,14 @@ func (ri *RouteInformation) unmarshal(b []byte) error {
 	}
 
 	// Unpack preference (with adjacent reserved bits) and lifetime values.
-	ri.PrefixLength = pl
-	ri.RouteLifetime = time.Duration(binary.BigEndian.Uint32(b[4:8])) * time.Second
-	ri.Preference = Preference((b[3] & 0x18) >> 3)
-	if err := checkPreference(ri.Preference); err != nil {
+	// An option with the reserved preference value must be ignored (RFC 4191 2.3): nothing is assigned before the check.
+	prf := Preference((b[3] & 0x18) >> 3)
+	if err := checkPreference(prf); err != nil {
 		return err
 	}
+	ri.PrefixLength = pl
+	ri.RouteLifetime = time.Duration(binary.BigEndian.Uint32(b[4:8])) * time.Second
+	ri.Preference = prf
 	// keep exactly the leading prefix-length bits, including those of a partial last byte
 	prefix := make(net.IP, net.IPv6len)
 	copy(prefix, b[8:8+(int(pl)+7)/8])
